@@ -242,9 +242,13 @@ func (r *Remote) addReachableTags(localRefs []*plumbing.Reference, remoteRefs st
 		return err
 	}
 
-	// remove any that are already on the remote
+	// remove any whose name is already taken on the remote
 	if err := remoteRefIter.ForEach(func(reference *plumbing.Reference) error {
-		delete(tags, *reference)
+		for tag := range tags {
+			if tag.Name() == reference.Name() {
+				delete(tags, tag)
+			}
+		}
 		return nil
 	}); err != nil {
 		return err
@@ -282,6 +286,11 @@ func (r *Remote) addReachableTags(localRefs []*plumbing.Reference, remoteRefs st
 				continue
 			}
 
+			if cmd.New.IsZero() {
+				// a deletion pushes no history
+				continue
+			}
+
 			c, err := object.GetCommit(r.s, cmd.New)
 			if err != nil {
 				return fmt.Errorf("get commit %v: %w", cmd.Name, err)
@@ -289,6 +298,7 @@ func (r *Remote) addReachableTags(localRefs []*plumbing.Reference, remoteRefs st
 
 			if isAncestor, err := tagCommit.IsAncestor(c); err == nil && isAncestor {
 				*cmds = append(*cmds, &packp.Command{Name: tag.Name(), New: tag.Hash()})
+				break
 			}
 		}
 	}
